@@ -388,6 +388,19 @@ def replay(cex):
             want = [b0 * 1.6 ** (i if which == 'min' else -i) for i in idxs]
             if any(abs(a - b) > 1e-9 * abs(b) for a, b in zip(got, want)):
                 return True, 'default %s yields %r, documented %r' % (cls.__name__, got, want)
+            # use_exact_steps (documented default of MinStepGenerator): the step with exponent 0 is make_exact(base * step_nom(x)),
+            # i.e. it satisfies (h + 1) - 1 == h, and it is that function of the PRODUCT (1 ulp of the product, not of the base)
+            for xx in (1.0, 50.0, -7.5, 1234.5):
+                for gen_kw in (dict(), dict(base_step=0.013), dict(base_step=0.37, step_ratio=2.0)):
+                    g = cls(use_exact_steps=True, **gen_kw)
+                    got = list(g(xx, 'central', 2, 4))
+                    h0 = float(got[-1] if which == 'min' else got[0])
+                    nomv = max(math.log(1.718281828459045 + abs(xx)), 1)
+                    b = float(g.base_step) * nomv
+                    doc = (b + 1.0) - 1.0
+                    if (h0 + 1.0) - 1.0 != h0 or h0 != doc:
+                        return True, ('%s(use_exact_steps=True, %s)(x=%r): step with exponent 0 is %r; documented make_exact(base_step*step_nom) = %r '
+                                      '((h+1)-1 == h: %s)' % (cls.__name__, gen_kw, xx, h0, doc, (h0 + 1.0) - 1.0 == h0))
         return False, 'documented sequence on the probes'
     if kind == 'scale':
         return True, 'default_scale(%s) = %r, documented table %r' % (cex['entry'], cex['got'], cex['want'])
